@@ -49,6 +49,9 @@ impl EventSource for RawIoBlock<'_> {
 
     /// after yield back process
     fn yield_back(&self, _cancel: &'static Cancel) {
+        // wait_io absorbs a cancel: consume the error that came with it, otherwise it stays
+        // in the generator and is taken for the result of the next blocking call
+        crate::yield_now::get_co_para();
         #[cfg(feature = "io_cancel")]
         _cancel.clear_cancel_bit();
     }
